@@ -5,6 +5,8 @@
 # `apply(op)` returns the result string in the harness' format (see harness/src/k_ba.rs).
 import struct
 
+import namekeys
+
 USIZE = 1 << 64
 ISIZE_MAX = (1 << 63) - 1
 
@@ -160,7 +162,7 @@ class Ref:
     def canonical_image(self):
         """C02's canonical file image (with C01's c-string pool when c-strings are pending): header totals that match the
         bytes; internal pointers by ascending address (the pool pointers among them), then string pointers grouped by string
-        in first-use order, each group ascending; labels by address (LE) or by name then address (BE); text section =
+        in first-use order, each group ascending; labels by address (LE) or by name (as decoded String) then address (BE); text section =
         label names in emission order then strings in first-use order, every distinct string once."""
         end = "<" if self.e == "L" else ">"
         u32 = lambda v: struct.pack(end + "I", v & 0xFFFFFFFF)
@@ -181,7 +183,8 @@ class Ref:
         if self.e == "L":
             lab_order = sorted((k for k in self.lab), key=lambda k: k)
         else:
-            lab_order = sorted((k for k in self.lab), key=lambda k: (self.lab[k], k))
+            # the library compares the names as Strings: Unicode scalars of the decoded names (gen/namekeys.py)
+            lab_order = sorted((k for k in self.lab), key=lambda k: (namekeys.bucket_key(self.lab[k]), k))
         text_items = []
         off = {}
         tsec = bytearray()
@@ -455,7 +458,7 @@ def n_args(op, toks, i):
 
 
 def parse_case(line):
-    toks = line.split()
+    toks = namekeys.strip_toks(line.split())
     assert toks[0] == "ba"
     endian, level = toks[1], int(toks[2][1:])
     ops = []
